@@ -1,0 +1,69 @@
+//go:build verif
+
+package dtlcp
+
+// Read-only accessors for the verification harness in /verif (build tag "verif").
+// Nothing here changes behaviour; without the tag this file is not compiled.
+
+// VerifFinished returns the client and server Finished verify_data recorded on the connection.
+//
+//go:norace
+func VerifFinished(c *Conn) (client, server [12]byte) {
+	return c.clientFinished, c.serverFinished
+}
+
+// VerifBuffered returns the sizes of the per-connection buffers and of the pending fragment state.
+//
+//go:norace
+func VerifBuffered(c *Conn) (handBuf, rawInput, readBuf, sendBuf, pendingMsgs, pendingBytes int) {
+	for _, fb := range c.pendingFragments {
+		pendingMsgs++
+		pendingBytes += len(fb.data) + len(fb.received)
+	}
+	return c.handBuf.Len(), len(c.rawInputBuf), len(c.readBuf), len(c.sendBuf), pendingMsgs, pendingBytes
+}
+
+// VerifSession exposes the fields of a SessionState.
+//
+//go:norace
+func VerifSession(s *SessionState) (id []byte, vers, suite uint16, master []byte, peerCerts int) {
+	if s == nil {
+		return nil, 0, 0, nil, 0
+	}
+	return s.sessionId, s.vers, s.cipherSuite, s.masterSecret, len(s.peerCertificates)
+}
+
+// VerifNewSession builds a SessionState with the given fields.
+func VerifNewSession(id []byte, vers, suite uint16, master []byte) *SessionState {
+	return &SessionState{sessionId: id, vers: vers, cipherSuite: suite, masterSecret: master}
+}
+
+// VerifReplayWindow wraps the replay window for model comparison.
+type VerifReplayWindow struct{ w *replayWindow }
+
+func VerifNewReplayWindow(size int) *VerifReplayWindow {
+	return &VerifReplayWindow{newReplayWindow(size)}
+}
+func (v *VerifReplayWindow) Check(seq uint64) bool { return v.w.check(uint48(seq)) }
+
+// VerifFragmentBuffer wraps the reassembly buffer for model comparison.
+type VerifFragmentBuffer struct{ fb *fragmentBuffer }
+
+func VerifNewFragmentBuffer(total int) *VerifFragmentBuffer {
+	return &VerifFragmentBuffer{newFragmentBuffer(uint24(total))}
+}
+func (v *VerifFragmentBuffer) Add(off, n int, frag []byte) bool {
+	return v.fb.addFragment(uint24(off), uint24(n), frag)
+}
+func (v *VerifFragmentBuffer) Complete() bool    { return v.fb.complete() }
+func (v *VerifFragmentBuffer) Assembled() []byte { return v.fb.assembled() }
+
+// VerifEffectiveReplayWindow returns the size of the connection's current replay window.
+//
+//go:norace
+func VerifEffectiveReplayWindow(c *Conn) int {
+	if c.replayWindow == nil {
+		return 0
+	}
+	return c.replayWindow.size
+}
